@@ -176,6 +176,53 @@ def scanInDim {α β γ : Type} (body : γ → Arr α → γ × Arr β) (init : 
   let r := scanNd bodyWrapper (k - 1) init (transposeIn axis xs)
   (r.1, transposeOut axis r.2)
 
+/-! ## negative axis entries
+
+`scan_in_dim` never normalises `axis` itself; negative entries work because each consumer of the
+permutation normalises on its own: `np.delete(np.arange(ndim), axis)` and `x.transpose(perm)` accept
+negative positions (NumPy semantics `-k ≡ ndim-k`), and `_invert_perm` writes `perm_inv[j] = i`
+with Python's negative list indexing.  The definitions below transcribe exactly that, with `Int`
+entries; `Props/C20.lean` proves they coincide with the `Nat` definitions on the normalised axes. -/
+
+/-- NumPy / Python normalisation of an index against a length: `-k ≡ n-k` -/
+def normAxis (n : Nat) (a : Int) : Nat := if a < 0 then (a + Int.ofNat n).toNat else a.toNat
+
+/-- `for i, j in enumerate(perm): perm_inv[j] = i` where `j` may be negative (Python list indexing) -/
+def invertLoopI : List Int → Nat → List Nat → List Nat
+  | [], _, inv => inv
+  | j :: rest, i, inv => invertLoopI rest (i + 1) (inv.set (normAxis inv.length j) i)
+
+/-- `_invert_perm(perm)` for a permutation that may contain negative entries -/
+def invertPermI (perm : List Int) : List Nat := invertLoopI perm 0 (List.replicate perm.length 0)
+
+/-- `axis + tuple(np.delete(np.arange(ndim), axis))`: the entries of `axis` stay as given, `np.delete`
+removes the normalised positions -/
+def scanPermI (axis : List Int) (ndim : Nat) : List Int :=
+  axis ++ ((List.range ndim).filter (fun a => !decide (a ∈ axis.map (normAxis ndim)))).map Int.ofNat
+
+/-- NumPy `x.transpose(perm)` with possibly negative entries -/
+def Arr.transposeI {α : Type} (perm : List Int) (x : Arr α) : Arr α :=
+  x.transpose (perm.map (normAxis x.shape.length))
+
+def transposeInI {α : Type} (axis : List Int) (x : Arr α) : Arr α :=
+  x.transposeI (scanPermI axis x.shape.length)
+
+/-- the entries of `_invert_perm(..)` are positions `i ≥ 0` -/
+def transposeOutI {α : Type} (axis : List Int) (x : Arr α) : Arr α :=
+  x.transpose (invertPermI (scanPermI axis x.shape.length))
+
+/-- `scan_in_dim` with an `axis` tuple that may contain negative entries (the code as it is) -/
+def scanInDimI {α β γ : Type} (body : γ → Arr α → γ × Arr β) (init : γ) (xs : Arr α)
+    (axis : List Int) (keepdims : Bool) : γ × Arr β :=
+  let k := axis.length
+  let bodyWrapper := fun (c : γ) (x : Arr α) =>
+    let x1 := if keepdims then transposeOutI axis (x.addLeadingOnes k) else x
+    let r := body c x1
+    let y1 := if keepdims then (transposeInI axis r.2).dropLeading k else r.2
+    (r.1, y1)
+  let r := scanNd bodyWrapper (k - 1) init (transposeInI axis xs)
+  (r.1, transposeOutI axis r.2)
+
 /-! executable helpers for the driver (flat row-major data) -/
 
 /-- all multi-indices of a shape in row-major order -/
